@@ -24,19 +24,20 @@ ASSUMPTIONS = [
     'Rp+dz0/2+z_j+dz_j/2; new: shells at layer boundaries, tangent at mid-layer); a re-discretisation must update them',
     'the oracle takes each contribution\'s prepared per-layer sigma as input (its correctness is C03/C04/C19)',
 ]
-_Q = {'abs': 120, 'mono': 25, 'big': 4, 'rerun': 60}
-_T = {'abs': 2500, 'mono': 600, 'big': 60, 'rerun': 1200}
+_Q = {'abs': 120, 'mono': 25, 'big': 4, 'rerun': 60, 'several': 30}
+_T = {'abs': 2500, 'mono': 600, 'big': 60, 'rerun': 1200, 'several': 500}
 BUDGET = {
     'quick': [dict(name='boundscheck', env={'NUMBA_BOUNDSCHECK': '1'}, shards=4, cases=_Q)],
     'thorough': [dict(name='boundscheck', env={'NUMBA_BOUNDSCHECK': '1'}, shards=16, cases=_T),
-                 dict(name='nojit', env={'NUMBA_DISABLE_JIT': '1'}, shards=4, cases={'abs': 150, 'mono': 30, 'rerun': 60})],
+                 dict(name='nojit', env={'NUMBA_DISABLE_JIT': '1'}, shards=4, cases={'abs': 150, 'mono': 30, 'rerun': 60, 'several': 30})],
 }
 REQUIRED = dict(monitors=['chords', 'exp(-tau)', 'depth', 'depth>=bare', 'depth<=opaque', 'transparent==bare',
                           'scaling-monotone', 'early-exit-licensed', 'chords-sum-to-full-chord'],
                 classes=['method:new', 'method:old', 'magnitude:transparent', 'magnitude:saturating',
                          'early-exit-observed', 'contrib:CIA', 'contrib:Rayleigh', 'contrib:SimpleClouds',
                          'contrib:FlatMie', 'contrib:LeeMie', 'nlayers:2', 'rerun:evaluated-after-change',
-                         'fault:fired:temperature', 'fault:fired:chemistry', 'fault:fired:contribution', 'fault:fired:pressure'])
+                         'fault:fired:temperature', 'fault:fired:chemistry', 'fault:fired:contribution', 'fault:fired:pressure',
+                         'several:evaluation-judged'])
 TOL = 1e-10
 CUT = float(np.exp(-10.0))
 
@@ -349,7 +350,7 @@ def perturb_model(rng, model, max_changes=3):
         old = model[n]
         if n in ('atm_min_pressure', 'atm_max_pressure'):
             new = old * float(10 ** rng.uniform(-0.5, 0.5))
-        elif n.startswith('T') or n in ('T_irr', 'T_int'):
+        elif n == 'T' or n.startswith('T_'):
             new = float(np.clip(old * rng.uniform(0.6, 1.5), 120.0, 3200.0))
         elif n in ('planet_mass', 'planet_radius'):
             new = old * float(rng.uniform(0.9, 1.2))
@@ -408,7 +409,49 @@ def wl_rerun(ctx, rng):
     ctx.sample({'workload': 'rerun', 'world': world.spec_summary(spec), 'changes': changes_all})
 
 
-WORKLOADS = {'abs': wl_abs, 'mono': wl_mono, 'big': wl_big, 'rerun': wl_rerun}
+def build_more(spec):
+    """Another model on the world that is already installed in the caches (no reset)."""
+    model = world.build_model(spec, 'transmission', new_path_method=spec['new_method'])
+    world.add_contributions(model, spec)
+    return model
+
+
+def wl_several(ctx, rng):
+    """Several model objects alive in one process and evaluated in turn (a script comparing set-ups, a notebook, the
+    retrieval and the post-processing model): the same world with the other path method, with another planet radius,
+    another temperature, another subset of contributions.  Every evaluation is judged by the oracle for ITS model --
+    nothing may leak from one object to another (class attributes, module-level caches, shared buffers)."""
+    spec = make_case(rng, nwn=int(rng.integers(3, 15)))
+    observe_case(ctx, spec)
+    variants = [spec, dict(spec, new_method=not spec['new_method'])]
+    for _ in range(int(rng.integers(0, 3))):
+        k = rng.integers(0, 3)
+        v = dict(variants[int(rng.integers(0, len(variants)))])
+        if k == 0:
+            v['planet_radius'] = float(v['planet_radius'] * rng.uniform(1.0, 1.3))
+        elif k == 1 and v['temperature']['kind'] == 'isothermal':
+            v['temperature'] = dict(v['temperature'], T=float(v['temperature']['T'] * rng.uniform(0.7, 1.0)))
+        elif len(v['contributions']) > 1:
+            v['contributions'] = list(v['contributions'][:-1])
+        if world.is_bound(v):
+            variants.append(v)
+    models = [realise(variants[0])] + [build_more(v) for v in variants[1:]]
+    built = [False] * len(models)
+    seq = [int(i) for i in rng.permutation(len(models))] + [int(i) for i in rng.integers(0, len(models), int(rng.integers(2, 5)))]
+    ctx.feature(summary=world.spec_summary(spec), nmodels=len(models), sequence=seq,
+                methods=[v['new_method'] for v in variants])
+    for i in seq:
+        snap = run_model(ctx, models[i], build=not built[i])
+        built[i] = True
+        if snap is None:
+            return
+        oracle(ctx, snap, variants[i])
+        ctx.observe('several:evaluation-judged')
+    ctx.observe('several:models=%d' % len(models))
+    ctx.sig('several', spec['nlayers'], len(models), tuple(seq), spec['magnitude'], round(spec['planet_mass'], 6))
+
+
+WORKLOADS = {'abs': wl_abs, 'mono': wl_mono, 'big': wl_big, 'rerun': wl_rerun, 'several': wl_several}
 
 LEVEL_TEXT = ('Exploration by runtime monitoring: every TransmissionModel.path_integral call made by the workload is '
               'tapped (geometry, density, each contribution\'s prepared sigma before; depth, exp(-tau), chord lengths '
